@@ -50,6 +50,7 @@ def handleStruct (st : St) (op : String) (j : Json) : Option (D (St × Json)) :=
     let k ← str (← field j "k")
     match k with
     | "split" => return (st, ok (Json.bool (splitGuard S d (← nat (← field j "pos")))))
+    | "join" => return (st, ok (Json.bool (joinGuard S d (← nat (← field j "pos")) && textStableC S)))
     | _ => throw s!"bad structGuard kind {k}"
   -- the remaining helpers (PM/Structure2.lean); `{"err":"raises"}` = the model says the code raises
   | "canJoin" => some do
